@@ -197,6 +197,52 @@ pub fn run(ctx: &Ctx, c02: bool) -> i32 {
       }
     }
   }
+  // "round" user values (integer degrees), numeric literals of the current sources used as
+  // latitudes / longitudes (and as offsets from the critical latitudes), centres of the cells whose
+  // two coordinates are integer literals of the sources (mid-word values)
+  for (lon, lat) in degree_positions() {
+    direct.push((lon, lat, "integer-degrees"));
+  }
+  let (lit_ints, lit_floats) = source_literals();
+  let tl = transition_lat();
+  for &x in &lit_floats {
+    for s in [-1.0, 1.0] {
+      let v = s * x;
+      if v.abs() <= HALF_PI {
+        direct.push((0.31, v, "source-literals"));
+        direct.push((1.0 + PI, v, "source-literals"));
+      }
+      if v.abs() <= 8.0 * PI {
+        direct.push((v, 0.2, "source-literals"));
+        direct.push((v, 1.0, "source-literals"));
+      }
+      if x > 0.0 && x < 0.2 {
+        for c in [0.0, tl, -tl, HALF_PI, -HALF_PI] {
+          if (c + v).abs() <= HALF_PI {
+            direct.push((0.31, c + v, "source-literals"));
+          }
+        }
+      }
+    }
+  }
+  for dd in [18u8, 22, 29] {
+    let mut coords = literal_coords(&lit_ints, dd);
+    // prefer proper mid-word values; keep at most 250
+    coords.sort_by_key(|c| (c.trailing_zeros() < 8, *c));
+    coords.truncate(250);
+    for &i in &coords {
+      for &j in &coords {
+        for d0h in [5u8, 1] {
+          let (cx, cy) = center_plane(dd, encode(dd, d0h, i, j));
+          let (lon, lat) = ref_unproj(cx, cy);
+          direct.push((lon, lat, "source-literal-cells"));
+          if !ctx.quick() || d0h == 5 {
+            continue;
+          }
+        }
+      }
+    }
+  }
   let dchunk = 256usize;
   let dpart = par_jobs((direct.len() + dchunk - 1) / dchunk, |job| {
     let mut part = Part::new();
@@ -223,7 +269,7 @@ pub fn run(ctx: &Ctx, c02: bool) -> i32 {
     check_out_of_domain(&mut total);
   }
   let bounds = json!({
-    "exponent_sweep": "critical latitudes / meridians +- 10^-k, 3.3 10^-k (k = 1..17) and 2^-k (k = 4..60 by 4)", "turns_sweep": "every number of half turns -8..=8 (|lon| <= 8 pi + 1) on 58 generic positions",
+    "integer_degrees": "every integer degree of latitude x longitudes every 15 degrees", "source_literals": "float literals of /repo/src as latitudes / longitudes / offsets from the critical latitudes; centres of the cells whose coordinates are mid-word integer literals (all ordered pairs of <= 250 values, depths 18, 22, 29)", "exponent_sweep": "critical latitudes / meridians +- 10^-k, 3.3 10^-k (k = 1..17) and 2^-k (k = 4..60 by 4)", "turns_sweep": "every number of half turns -8..=8 (|lon| <= 8 pi + 1) on 58 generic positions",
     "plane_lattice_bits": bd.b, "lattice_nodes": n_lattice, "deep_border_nodes": n_nodes - n_lattice,
     "ulp_nudges": format!("(2*{}+1)^2 lattice, (2*{}+1)^2 deep-border", bd.nudge_k, bd.deep_nudge_k),
     "turns_lattice": bd.turns, "turns_deep_border": bd.deep_turns, "depths": "0..=29 (all)",
